@@ -52,7 +52,14 @@ pub fn run(s: &mut Session, ctx: &Ctx) {
         if kind == "textcolor" {
             continue; // text_color returns opaque black/white by definition
         }
-        let amount = if ADJ_WITH_AMOUNT.contains(&kind) { Some(if kind == "rotate" { x * 720.0 } else { x }) } else { None };
+        // amounts: mostly ordinary; one in eight is huge or not finite (C10's "every transformation" does not
+        // exclude them, and a guard for such amounts is a separate code path)
+        let odd = [f64::INFINITY, f64::NEG_INFINITY, f64::NAN, 1e300, -1e300, f64::MAX, 0.0, -0.0];
+        let amount = if ADJ_WITH_AMOUNT.contains(&kind) {
+            Some(if i % 8 == 2 { odd[(i / 8) % odd.len()] } else if kind == "rotate" { x * 720.0 } else { x })
+        } else {
+            None
+        };
         if let Some(r) = ops::adj(s, kind, &c, amount, a0 != 1.0) {
             let a1 = r.to_rgba().alpha;
             s.check(a1 == a0, "alpha-preserved", &format!("Color::{}", match kind {
